@@ -241,30 +241,30 @@ func (p *inlineParser) render() {
 				// Try parsing a open tag.
 				if parseWithRegexp(openTagRegexp) {
 					continue
-				} else {
-					// Try parsing an autolink.
-					autolink := uriAutolinkRegexp.FindString(p.text[begin:])
-					email := false
-					if autolink == "" {
-						autolink = emailAutolinkRegexp.FindString(p.text[begin:])
-						email = true
-					}
-					if autolink != "" {
-						p.pos = begin + len(autolink)
-						// Autolinks support character references but not
-						// backslashes, so UnescapeHTML gives us the desired
-						// behavior.
-						text := UnescapeHTML(autolink[1 : len(autolink)-1])
-						dest := text
-						if email {
-							dest = "mailto:" + dest
-						}
-						p.buf.push(piece{
-							main: InlineOp{Type: OpAutolink, Text: text, Dest: dest},
-						})
-						continue
-					}
 				}
+			}
+			// Try parsing an autolink. This is also done when the < is followed
+			// by !, ? or /, since an email address may start with them.
+			autolink := uriAutolinkRegexp.FindString(p.text[begin:])
+			email := false
+			if autolink == "" {
+				autolink = emailAutolinkRegexp.FindString(p.text[begin:])
+				email = true
+			}
+			if autolink != "" {
+				p.pos = begin + len(autolink)
+				// Autolinks support character references but not
+				// backslashes, so UnescapeHTML gives us the desired
+				// behavior.
+				text := UnescapeHTML(autolink[1 : len(autolink)-1])
+				dest := text
+				if email {
+					dest = "mailto:" + dest
+				}
+				p.buf.push(piece{
+					main: InlineOp{Type: OpAutolink, Text: text, Dest: dest},
+				})
+				continue
 			}
 			parseText()
 		case '&':
